@@ -254,7 +254,13 @@ def run_call(D, call, P):
                 o.extra["first"] = first.as_tensor.detach().clone()
                 loss = torch.rand(len(first))
                 o.extra["loss"] = loss.clone()
-                o.points = s.sample_points(unreduced_loss=loss, params=P)
+                P2 = P
+                if call.get("p2") == "reverse" and len(P) > 1:
+                    # later calls may come with other parameter rows: rows kept from the first call stay paired with the
+                    # parameter row they were sampled for (the returned points carry their own parameter columns)
+                    P2 = tp.spaces.Points(P.as_tensor.flip(0).clone(), P.space)
+                    o.extra["p2"] = True
+                o.points = s.sample_points(unreduced_loss=loss, params=P2)
             else:
                 o.points = s.sample_points(P)
                 if call.get("static"):
